@@ -59,6 +59,34 @@ CLAIMS["C07"] = {
     "technique": "call-graph SCC analysis with dominator-based guard recognition + explicit-panic inventory over MIR",
 }
 
+
+CLAIMS["C03"] = {
+    "text": "Decides the side conditions of the optimizer passes structurally: per ir::Node variant, matches_exactly_one_char / match_always_fails / "
+            "is_unrollable / contains_capture_groups are summarised from HIR and compared with what the node kind's semantics allow (ARM); the "
+            "1-char-loop promotion does not change behaviour for unencodable characters (NARROW); sequences are direction-aware in the emitter (LBSEQ).",
+    "note": COMMON_NOTE + "Not decided: semantic equivalence of each rewrite on all IR shapes (value-level).",
+    "technique": "HIR per-variant symbolic arm summaries vs. a reviewed semantics table; MIR path rule for Option propagation; loop/dominator rule in the emitter",
+}
+CLAIMS["C04"] = {
+    "text": "Decides that the start-predicate abstraction is sound per node kind: for each ir::Node variant the arm of compute_start_predicate and "
+            "is_start_anchored is summarised (delegation, guards, disjunction, first-non-None) and must be one of the shapes the node's semantics "
+            "allow (zero-width => None/Arbitrary, loops delegate only under min >= 1, Alt = disjunction of both or Arbitrary, Alt anchored only if both are).",
+    "note": COMMON_NOTE + "Not decided: the byte arithmetic of disjunction / ByteBitmap / utf8_first_byte (value-level).",
+    "technique": "HIR per-variant symbolic arm summaries vs. a reviewed semantics table",
+}
+CLAIMS["C11"] = {
+    "text": "Decides that every Node::StringSet is built from a vector sorted longest-first on all paths (STRSORT): the structural condition behind "
+            "'under v exactly the strings'.",
+    "note": COMMON_NOTE + "Not decided: table contents against UCD 17 (no copy offline).",
+    "technique": "MIR dominator + value-flow rule with comparator-closure recognition",
+}
+CLAIMS["C13"] = {
+    "text": "Decides that narrowing a pattern character to the input's element type can only mean 'this character does not match' (NARROW): the one "
+            "place where the ASCII and UTF-8 executors diverged structurally.",
+    "note": COMMON_NOTE + "Not decided: agreement of decoding and folding between AsciiInput and Utf8Input on all inputs (value-level).",
+    "technique": "MIR path rule: Option None-edge must not propagate straight to a failure return",
+}
+
 PENDING = "rules for this property are designed (DESIGN.md §3/§4) but not built yet; nothing is claimed until they exist"
 
 NOT_APPLICABLE = {("C%02d" % i): PENDING for i in range(1, 21)}
